@@ -113,41 +113,41 @@ theorem collapse_idem : ∀ s : Str, collapse (collapse s) = collapse s := by
     rw [collapse_cons_of_not x (collapse s) (by rw [head_collapse]; exact hnot'), ih]
   | case3 => rfl
 
-/-! ### `strip` -/
+/-! ### `strip(" ")` -/
 
-/-- no white space at either end -/
+/-- no #x20 at either end -/
 def Trimmed (s : Str) : Prop :=
-  (∀ c, s.head? = some c → isSpace c = false) ∧ (∀ c, s.getLast? = some c → isSpace c = false)
+  (∀ c, s.head? = some c → isSp c = false) ∧ (∀ c, s.getLast? = some c → isSp c = false)
 
-theorem stripL_of_head {s : Str} (h : ∀ c, s.head? = some c → isSpace c = false) : stripL s = s := by
+theorem stripL_of_head {s : Str} (h : ∀ c, s.head? = some c → isSp c = false) : stripSpL s = s := by
   cases s with
   | nil => rfl
-  | cons c s => simp [stripL, List.dropWhile, h c rfl]
+  | cons c s => simp [stripSpL, List.dropWhile, h c rfl]
 
-theorem strip_of_trimmed {s : Str} (h : Trimmed s) : strip s = s := by
-  unfold strip
+theorem strip_of_trimmed {s : Str} (h : Trimmed s) : stripSp s = s := by
+  unfold stripSp
   rw [stripL_of_head h.1]
   rw [stripL_of_head (s := s.reverse) (by intro c hc; rw [List.head?_reverse] at hc; exact h.2 c hc)]
   exact List.reverse_reverse s
 
-theorem head_stripL (s : Str) : ∀ c, (stripL s).head? = some c → isSpace c = false := by
+theorem head_stripL (s : Str) : ∀ c, (stripSpL s).head? = some c → isSp c = false := by
   intro c hc
-  have := List.head?_dropWhile_not isSpace s
-  simp only [stripL] at hc
+  have := List.head?_dropWhile_not isSp s
+  simp only [stripSpL] at hc
   rw [hc] at this
   simpa using this
 
-theorem stripL_cons (x : Char) (s : Str) : stripL (x :: s) = if isSpace x then stripL s else x :: s := by
-  simp only [stripL, List.dropWhile]
-  cases isSpace x <;> rfl
+theorem stripL_cons (x : Char) (s : Str) : stripSpL (x :: s) = if isSp x then stripSpL s else x :: s := by
+  simp only [stripSpL, List.dropWhile]
+  cases isSp x <;> rfl
 
-theorem getLast_stripL (s : Str) : stripL s ≠ [] → (stripL s).getLast? = s.getLast? := by
+theorem getLast_stripL (s : Str) : stripSpL s ≠ [] → (stripSpL s).getLast? = s.getLast? := by
   induction s with
   | nil => intro h; exact absurd rfl h
   | cons x s ih =>
     intro h
     rw [stripL_cons] at h ⊢
-    cases hx : isSpace x with
+    cases hx : isSp x with
     | true =>
       simp only [hx, if_true] at h ⊢
       rw [ih h]
@@ -156,12 +156,12 @@ theorem getLast_stripL (s : Str) : stripL s ≠ [] → (stripL s).getLast? = s.g
       | cons y s' => rw [List.getLast?_cons_cons]
     | false => simp
 
-theorem trimmed_strip (s : Str) : Trimmed (strip s) := by
-  unfold strip
+theorem trimmed_strip (s : Str) : Trimmed (stripSp s) := by
+  unfold stripSp
   constructor
   · intro c hc
     rw [List.head?_reverse] at hc
-    by_cases hne : stripL (stripL s).reverse = []
+    by_cases hne : stripSpL (stripSpL s).reverse = []
     · rw [hne] at hc; simp at hc
     · rw [getLast_stripL _ hne, List.getLast?_reverse] at hc
       exact head_stripL s c hc
@@ -169,11 +169,11 @@ theorem trimmed_strip (s : Str) : Trimmed (strip s) := by
     rw [List.getLast?_reverse] at hc
     exact head_stripL _ c hc
 
-theorem mem_stripL (s : Str) (c : Char) (h : c ∈ stripL s) : c ∈ s :=
+theorem mem_stripL (s : Str) (c : Char) (h : c ∈ stripSpL s) : c ∈ s :=
   (List.dropWhile_sublist _).subset h
 
-theorem mem_strip (s : Str) (c : Char) (h : c ∈ strip s) : c ∈ s := by
-  unfold strip at h
+theorem mem_strip (s : Str) (c : Char) (h : c ∈ stripSp s) : c ∈ s := by
+  unfold stripSp at h
   rw [List.mem_reverse] at h
   have := mem_stripL _ c h
   rw [List.mem_reverse] at this
@@ -192,7 +192,7 @@ theorem wsNorm_idem (d : Option Str) (y : Str) : wsNorm d (wsNorm d y) = wsNorm 
     · subst h2
       have hne : (some Tables.xsdToken = some Tables.xsdNormalizedString) = False := by simpa using h1
       simp only [hne, if_false, if_true]
-      have hn : normString (collapse (strip (normString y))) = collapse (strip (normString y)) := by
+      have hn : normString (collapse (stripSp (normString y))) = collapse (stripSp (normString y)) := by
         apply normString_fixed
         intro c hc
         exact mem_normString_fixed y c (mem_strip _ c (mem_collapse _ c hc))
